@@ -14,17 +14,27 @@ CHECKS = {
             "exactly the rows - values, multiplicity, order - of the direct evaluation of the operation sequence; "
             "never fails; and again from any store left behind by earlier executions. " + CORR,
             "", "DESIGN.md 5/C01"),
-    "C02": (TV, "Lean model of tree building and of the emitted SELECT + correspondence incl. execution of every generated query on SQLite; supporting theorems for the tree-building half",
-            CORR + "Supporting machine-checked theorems (Props/C02.lean, every recursion budget): for EVERY construction history "
-            "inside one SQL engine (leaves, any number of unary operations, chains, joins with automatic common columns and a "
-            "predicate, materializations, any nesting) the tree the factories build has, in the reference semantics, exactly "
-            "the rows (values, multiplicity, order) and columns of the direct evaluation of the operation sequence "
-            "(sql_history_tree_sem - the SQL analogue of C01's history theorem, at tree level); a unary operation applied "
-            "inside the SQL engine to any raw SQL tree (incl. chains and joins), and conform of one, yield exactly the rows "
-            "(values, multiplicity, order) and columns of direct evaluation - through slot merging, subquery nesting and "
-            "projection push-down into UNION branches; joining two Selects (projections stripped and re-applied, hidden "
-            "columns guarded) yields exactly the join of the visible rows. The emitted SELECT text and its evaluation by the "
-            "database are modelled and validated on SQLite, not proved.", "", "DESIGN.md 5/C02"),
+    "C02": (PR, "Lean 4 theorems: compile_sound (the emitted SELECT, evaluated under the list semantics of SQL, returns the reference rows - mutual induction over _select_to_executable / to_payload) composed with the tree-building induction of C17 + correspondence incl. execution of every generated query on SQLite",
+            "Machine-checked (Props/C02.lean, every recursion budget, no bound on nesting): (1) tree building - for EVERY "
+            "construction history inside one SQL engine (leaves, any number of unary operations, chains, joins with automatic "
+            "common columns and a predicate, materializations, any nesting) the tree the factories build has, in the reference "
+            "semantics, exactly the rows (values, multiplicity, order) and columns of the direct evaluation of the operation "
+            "sequence (sql_history_tree_sem); the same for a unary operation applied to / conform of any raw SQL tree, and for "
+            "joins of Selects (projections stripped and re-applied, hidden columns guarded); (2) compilation - for every tree "
+            "satisfying the invariant the engine maintains (Good), whose leaves and processed markers hold faithful payloads, "
+            "the query _select_to_executable emits (SELECT list from columns_available, FROM / JOIN ... ON common columns and "
+            "predicate, WHERE terms, subqueries with fresh aliases, UNION [ALL], DISTINCT, ORDER BY, OFFSET/LIMIT) evaluates "
+            "under the list semantics of SQL (Model/Sql.lean: Query.eval) to exactly the rows - values, multiplicity, order - "
+            "of the reference semantics (emitted_select_returns_reference_rows, emitted_payload_stands_for_reference_rows); "
+            "(3) end to end - conform, compile, evaluate on a raw SQL tree, or on the tree of any construction history, returns "
+            "the rows of the direct evaluation (to_executable_returns_reference_rows, sql_history_executes_to_direct_rows); "
+            "table_payload_is_faithful discharges the payload hypothesis for plain tables. Proof (partial): the end-to-end "
+            "theorems assume that the CONFORMED tree passes the decidable check Rel.structReady (no payload on a Select, function "
+            "arities, resolved joins, a DISTINCT level does not sort by a column it dropped - the one case the database leaves "
+            "unspecified) - the driver evaluates that check on every sqlexec and the evidence counts how often it held; queries "
+            "with a duplicated FROM name are excluded (outside the model); the list semantics of SQL itself and SQLite's "
+            "acceptance of the query are modelled and validated by running every generated query on SQLite under both scan "
+            "orders, not proved. " + CORR, "", "DESIGN.md 5/C02"),
     "C03": (PR, "Lean 4 theorems: backtracking_sound (induction over trees using C04/C05 + locality of widened projections), apply_with_options_sound (iteration engines) and apply_on_sql_target_sound (SQL-engine targets) for every option combination + correspondence",
             "Machine-checked for the unary operation classes between iteration engines, every tree, every option "
             "combination: backtrack_unary returns a well-formed relation that has (done) or yields under the operation "
@@ -55,10 +65,19 @@ CHECKS = {
             "leaves (all operations incl. join/chain), hence join-identity/trivial flags and the short-cuts keyed on "
             "them. " + CORR, "", "DESIGN.md 5/C06"),
     "C07": (TV, "Lean model + correspondence (proofs in progress)", CORR, "", "DESIGN.md 5/C07"),
-    "C08": (TV, "Lean model + correspondence incl. execution of every generated query on SQLite; supporting theorems for the iteration engine",
-            CORR + "Supporting machine-checked theorems (Props/C08.lean): every accepted iteration-engine history executes and "
-            "iterates without any error; _finish_apply raises nothing but the documented EngineError. The SQL half "
-            "(database accepts the generated SELECT) is validated on SQLite, not proved.", "", "DESIGN.md 5/C08"),
+    "C08": (PR, "Lean 4 theorems: every accepted iteration-engine history executes; compile_total (the SQL engine's _select_to_executable / to_payload never fail on the trees the engine builds - mutual induction, composed with the tree-building induction of C17 whose invariant carries the compilable shape) + correspondence incl. execution of every generated query on SQLite",
+            "Machine-checked (Props/C08.lean): every accepted iteration-engine history executes and iterates without any "
+            "error; _finish_apply raises nothing but the documented EngineError; in the SQL engine, for every tree satisfying "
+            "the invariant the engine maintains (Good - which includes the shape to_payload can handle; treeBuild_sound proves "
+            "conform and every factory call preserve it) whose leaves and processed markers hold payloads, "
+            "_select_to_executable and to_payload SUCCEED at every recursion budget above the tree's height: no missing-column "
+            "lookup (KeyError) in a SELECT list, an ORDER BY, a WHERE term, an ON clause or a calculated column, and no "
+            "unsupported-node error (sql_compile_never_fails, sql_payload_never_fails); hence conform-then-compile succeeds on "
+            "every raw SQL tree and on the tree of every construction history inside one SQL engine - any number of unary "
+            "operations, chains, joins, materializations (conformed_tree_compiles, accepted_sql_history_compiles). Proof "
+            "(partial): that the DATABASE accepts the emitted SELECT is modelled (Query.accepts) and validated against SQLite "
+            "on every generated query, not proved; the payload hypothesis (Rel.PayReady) is stated on the conformed tree; "
+            "multi-engine trees (Processor) are validated only. " + CORR, "", "DESIGN.md 5/C08"),
     "C09": (PR, "Lean 4 theorem over the regenerated dataclass schema + fingerprint monitoring of every pool relation",
             "Machine-checked over the schema re-read from the live classes each run: every relation/operation/"
             "expression class is a frozen eq dataclass whose compared fields are hashable (proof, partial: Python-level "
@@ -72,13 +91,18 @@ CHECKS = {
             "executed trees; each materialization's upstream tree is evaluated at most once (ghost log Nodup); a cached "
             "materialization is handed back with no evaluation. Proof (partial): Processor.process histories and the SQL "
             "engine's payloads are validated by correspondence + oracle, not proved. " + CORR, "", "DESIGN.md 5/C10"),
-    "C11": (TV, "Lean model + correspondence incl. execution on SQLite in both scan orders; supporting theorems for the tree-building half",
-            CORR + "Supporting machine-checked theorems (Props/C11.lean): in the reference semantics (rows are ordered lists) a "
-            "slice applied inside the SQL engine to any raw SQL tree yields exactly rows [start, stop) of the target's rows in "
-            "the target's order, a sort yields them stably sorted (merged with a recorded sort, nested above a recorded slice, "
-            "or wrapped around a UNION); _append_binary_to_select and materialize raise RelationalAlgebraError when an "
-            "operand carries a sort without a slice. That the database honours ORDER BY/OFFSET/LIMIT as modelled is validated "
-            "on SQLite, not proved.", "", "DESIGN.md 5/C11"),
+    "C11": (PR, "Lean 4 theorems: the tree-building induction of C17 (slice = window of the target's order, sort on top, refusal of buried unsliced sorts) composed with compile_sound (ORDER BY and OFFSET/LIMIT of the emitted query level) + correspondence incl. execution on SQLite in both scan orders",
+            "Machine-checked (Props/C11.lean, rows are ordered lists): a slice applied inside the SQL engine to any raw SQL tree "
+            "yields exactly rows [start, stop) of the target's rows in the target's order, a sort yields them stably sorted "
+            "(merged with a recorded sort, nested above a recorded slice, or wrapped around a UNION); _append_binary_to_select "
+            "and materialize raise RelationalAlgebraError when an operand carries a sort without a slice; the query emitted for "
+            "a coherent Select returns, under the list semantics of SQL, the skip target's rows stably sorted by the recorded "
+            "terms, projected, deduplicated and THEN cut to the recorded window (emitted_select_honours_sort_and_slice); sort "
+            "then slice through the factories, conform, compile, evaluate returns rows [start, stop) of the stably sorted rows "
+            "in that order (sorted_slice_executes_in_order). Proof (partial): as for C02 the end-to-end statement assumes the "
+            "decidable check Rel.structReady on the conformed tree and faithful payloads; that the database honours ORDER BY / "
+            "OFFSET / LIMIT as the list semantics says is modelled and validated on SQLite under both scan orders, not proved. "
+            + CORR, "", "DESIGN.md 5/C11"),
     "C12": (PR, "Lean 4 theorems: iteration callable = direct value; SQL translation = direct value (incl. range arithmetic for all start/stop/step) + correspondence incl. evaluation by SQLite",
             "Machine-checked for all expression/predicate trees over the portable operator set and all NULL-free rows that "
             "have the required columns: the iteration engine's callable yields the direct value and never raises; the SQL "
